@@ -3,6 +3,7 @@ package main
 // Case families other than Filter: Slice, Select, Drop, Copy, Apply, FilteredApply, WithRowNums, Equals, New.
 
 import (
+	"bytes"
 	"fmt"
 	"math"
 	"sort"
@@ -51,8 +52,29 @@ func runOp(s *hlib.Suite, qf qframe.QFrame, desc map[string]interface{}, op func
 		if msg := checkByName(od); msg != "" {
 			s.Fail(id, msg, desc, "")
 		}
-	} else if out.Len() != -1 {
-		s.Fail(id, "a frame with Err set reports Len() != -1", desc, "")
+	} else {
+		if out.Len() != -1 {
+			s.Fail(id, "a frame with Err set reports Len() != -1", desc, "")
+		}
+		// a failed frame: the serializers return the error and write nothing, further operations keep the error
+		var cb, jb bytes.Buffer
+		var e1, e2 error
+		if p, v := hlib.Recover(func() { e1, e2 = out.ToCSV(&cb), out.ToJSON(&jb) }); p {
+			s.Fail(id, fmt.Sprintf("a serializer panicked on a failed frame: %v", v), desc, "")
+		} else if e1 == nil || e2 == nil || cb.Len() > 0 || jb.Len() > 0 {
+			d10 := map[string]interface{}{"op": desc["op"], "props": []string{"C10"}}
+			s.Fail(id, fmt.Sprintf("ToCSV / ToJSON on a failed frame: errors (%v, %v), bytes written (%d, %d)", e1 != nil, e2 != nil, cb.Len(), jb.Len()), d10, "")
+		}
+		if p, v := hlib.Recover(func() {
+			called := false
+			next := out.Apply(qframe.Instruction{Fn: func() int { called = true; return 1 }, DstCol: "afterfail"}).Slice(0, 0).Sort(qframe.Order{Column: "afterfail"})
+			if next.Err == nil || called {
+				d10 := map[string]interface{}{"op": desc["op"], "props": []string{"C10"}}
+				s.Fail(id, fmt.Sprintf("operations chained after a failure: Err kept = %v, callback invoked = %v", next.Err != nil, called), d10, "")
+			}
+		}); p {
+			s.Fail(id, fmt.Sprintf("an operation chained after a failure panicked: %v", v), desc, "")
+		}
 	}
 	// all observers must describe the result alike (C09)
 	if out.Err == nil {
